@@ -36,6 +36,8 @@ def gen_arena(rng, faults):
             lines.append('fail %d' % rng.randint(1, 2))
         else:
             lines.append('mv')
+            if rng.random() < 0.5:
+                lines.append('mfa')     # a fresh arena assigned into the moved-from one
     lines.append('destroy')
     return '\n'.join(lines) + '\n'
 
@@ -107,18 +109,20 @@ def run(ctx):
             cases.append(dict(exe=ex_arena[c], script=sc, replay_args=['arena'], tag=('arena', sc.split('\n')[0], c)))
     for i in range(n // 2):
         sc = stackgen.gen_script(rng, faults=True)
+        if rng.random() < 0.4:
+            sc = sc.replace('\ndestroy\n', '\nmv\nmfa\ndestroy\n')
         for c in cfgs:
             cases.append(dict(exe=ex_stack[c], script=sc, replay_args=['stack', str(SCFG[c])], tag=('stack', sc.split('\n')[0], c)))
     for i in range(n // 2):
         t = poolgen.gen_target(rng)
         sc = poolgen.gen_script(rng, t, nops=rng.randint(10, 50), faults=True)
         if rng.random() < 0.5:
-            sc = sc.replace('\ndestroy\n', '\n%s\nq 1\ndestroy\n' % rng.choice(['mv', 'ma fresh', 'ma used']))
+            sc = sc.replace('\ndestroy\n', '\n%s\nq 1\ndestroy\n' % rng.choice(['mv', 'ma fresh', 'ma used', 'mv\nmfa', 'mv\nmfa\nmv']))
         for c in cfgs:
             cases.append(dict(exe=ex_pool[c], script=sc, replay_args=['pool'], tag=('pool', t['line'], c)))
     for i in range(n // 3):
         N = rng.randint(1, 5)
-        sc = 'init %d %d\n' % (N, rng.choice([100, 1025, 4096])) + ''.join(rng.choice(['a 8 8\n', 'n\n', 'a 100 1\n', 'mv\n', 'ma\n']) for _ in range(rng.randint(3, 20)))
+        sc = 'init %d %d\n' % (N, rng.choice([100, 1025, 4096])) + ''.join(rng.choice(['a 8 8\n', 'n\n', 'a 100 1\n', 'mv\n', 'ma\n', 'mv\nmfa\n']) for _ in range(rng.randint(3, 20)))
         for c in cfgs:
             cases.append(dict(exe=ex_iter[c], script=sc, replay_args=['iter', str(SCFG[c]), '0' if c == 'rel' else '1'], tag=('iter', sc.split('\n')[0], c)))
     res = runner.run_cases(cases, rexe)
@@ -148,6 +152,6 @@ def run(ctx):
                  upstream_allocations=tot['up'], upstream_releases=tot['down'], injected_or_source_failures=tot['failed'], divergences=div,
                  sources=['growing', 'fixed', 'static_block_allocator', 'virtual_block_allocator']),
         evaluations=len(cases), distinct_nontrivial=len(set(c['script'] for c in cases)),
-        rule='seeded histories of allocate_block/deallocate_block/shrink_to_fit/owns/move on cached and uncached arenas over four block sources, stack/pool/collection/iteration histories with the k-th upstream call failing, moves and move-assignments; distinct = distinct scripts'))
+        rule='seeded histories of allocate_block/deallocate_block/shrink_to_fit/owns/move on cached and uncached arenas over four block sources, stack/pool/collection/iteration histories with the k-th upstream call failing, moves, move-assignments onto used and fresh targets and into moved-from objects; distinct = distinct scripts'))
     if res:
         ctx.samples.append(dict(target=res[0]['case']['tag'], script=res[0]['case']['script'].split('\n')[:12], log=res[0]['log'].split('\n')[:12]))
